@@ -1,4 +1,5 @@
-"""C02 — reference graph stays closed and symmetric under every mutation history.
+"""C02 — reference graph stays closed and symmetric under every mutation history (refused calls and
+probe calls included: the walker also runs when a mutator returns by raising).
 Deciding monitor: M4 closed_symmetric walker at every outermost mutation return."""
 from . import history as H
 from ..mon import hooks
@@ -8,11 +9,12 @@ ID = "C02"
 
 def setup(ctx):
     hooks.RATE = 1
+    H.PROBE_RATE = 0.4
 
 
 def cases(rng, tier, shard, nshards):
     while True:
-        yield H.gen_history(rng, nsteps=rng.randint(4, 20 if tier == "quick" else 60), failing=0.0,
+        yield H.gen_history(rng, nsteps=rng.randint(4, 20 if tier == "quick" else 60), failing=0.2,
                             fanout=True, tags=rng.random() < 0.2)
 
 
